@@ -131,7 +131,7 @@ PROPS = {
         'level_text': 'Proof over R about the model of check_intersection (after the fix deriving the shell count from the cell heights): if the check finds nothing (a score is reported) then NO two distinct lattice images of symmetry copies properly meet, for all copies i,j and all lattice vectors however far (prefilter soundness from orthogonal placements and the enclosing radius, |uA+vB| >= |u| a sin t, shells*min(a,b)*sin t >= 2R for the generated shell rule, translation invariance and symmetry of the pair tests, completeness of the pair tests from C12). Discs: the open disc-unions of distinct images are disjoint. Polygons: edges that really share a point and are not near-parallel are excluded; overlapping interiors of convex copies force such a pair of edges (C12Convex/C12Orient/C12Polygon) up to the explicit angle and not-nested hypotheses. check_intersection, score, positions and periodic_images are regenerated from the source and proved equal to the model (TiePacked, TieSite, TieImages).',
         'level_note': 'Trusted: Lean kernel + 3 axioms; model of packed.rs/cell.rs/site.rs tied by bit-exact state/optc families; shell rule and prefilter constants regenerated by the translator and pinned by a decidable obligation; f64 rounding outside the theorem.',
         'technique': 'Lean 4 geometric proof over R + source-to-Lean translation of check_intersection / positions / periodic_images with tie theorems + translator-pinned constants + bit-exact differential correspondence',
-        'theorems': ['Proofs.C01', 'Proofs.C12Convex', 'Proofs.TieDisc', 'Proofs.TieLine', 'Proofs.TieHardShape', 'Proofs.TiePacked', 'Proofs.TieImages', 'Proofs.TieSite', 'Proofs.C12Orient', 'Proofs.C12Polygon'],
+        'theorems': ['Proofs.C01', 'Proofs.C12Convex', 'Proofs.TieDisc', 'Proofs.TieLine', 'Proofs.TieHardShape', 'Proofs.TiePacked', 'Proofs.TieImages', 'Proofs.TieSite', 'Proofs.C12Orient', 'Proofs.C12Polygon', 'Proofs.C12Placed', 'Proofs.C01Polygon', 'Proofs.SrcC01'],
         'families': [('state_hard', 2500, 40000), ('optc_hard', 200, 4000), ('pair_hard', 1500, 20000)],
         'search': (15, 400),
         'rule': 'state: 7 groups x polygons/radial/circle/trimers x cells over the optimiser box (dense and dilute) incl. bound-clamped coordinates; non-trivial = any ok reply; search: exhaustive lattice-overlap oracle (shells from cell heights + margin, SAT / disc distances) on adversarial dense/skewed/elongated states, on far-overlap-only states found by geometric rejection sampling, and on states returned by the optimiser',
@@ -142,7 +142,7 @@ PROPS = {
         'level_text': 'Proof over R: score = area*N/cellArea with cellArea = |AxB| (C14); LineShape area equals the shoelace area of the closed outline from_radial builds (n>=3, r>=0), (n/2) sin(2pi/n) for polygon n; disc-union area = measure of the union minus the triple intersection for any finite measure realising the disc and lens values (exact when no point lies in all three discs, an under-count otherwise: known finding F10). The lens value is proved for Lebesgue measure and axis-aligned discs in all three regimes (C02Lens.volume_inter_eq_circleOverlap, by integration). area / score / cell area are regenerated from the source and proved equal to the model (TieDisc, TieHardShape, TieCell, TiePacked). Partial: score <= 1 as the measure statement covered_le_cell with the tiling hypothesis explicit; the rigid motion reducing a general pair of discs to an axis-aligned one is not formalised.',
         'level_note': 'Trusted: lens-area closed form and "shoelace = area" as geometry; Lean kernel + 3 axioms; Mathlib measure theory; area/score functions tied by bit-exact pair/state families.',
         'technique': 'Lean 4 proof (trigonometric identities, inclusion-exclusion and integration in measure theory) + source-to-Lean translation with tie theorems + differential correspondence + exact-area oracle',
-        'theorems': ['Proofs.C02', 'Proofs.TieDisc', 'Proofs.TieCell', 'Proofs.TieHardShape', 'Proofs.TiePacked', 'Proofs.C02Lens'],
+        'theorems': ['Proofs.C02', 'Proofs.TieDisc', 'Proofs.TieCell', 'Proofs.TieHardShape', 'Proofs.TiePacked', 'Proofs.C02Lens', 'Proofs.SrcC02'],
         'families': [('pair_hard', 2500, 40000), ('state_hard', 1500, 20000), ('cell', 800, 10000)],
         'search': (12, 300),
         'rule': 'pair: area/radius/items of polygons 3..69 sides, radial polygons, circle, trimers over the CLI parameter space; search: shoelace oracle, union-of-discs area by tanh-sinh scanline integration stratified by overlap topology, score = N*area/|AxB| in (0,1] on random and optimised states',
@@ -153,7 +153,7 @@ PROPS = {
         'level_text': 'Proof over R about the model of PotentialState::score (after the weight fix): score = -(in-cell pairs once + 1/2 * ordered image pairs over 3 shells)/N with weight and shell count regenerated from the source; for a symmetric pair energy (all particles alike, C13) this is -(1/N)*(1/2)*sum_i sum over all other images (j,T) in the box of E(i,j+T): every pair of distinct images counted once per molecule, independent of whether a neighbour is an in-cell copy or a periodic image; for cut potentials every term outside the box of k shells is exactly 0 when k*min(a,b)*sin t >= cutoff + 2*extent, so the box sum equals every larger box sum. Partial: uncut potential = the truncated sum (tail not bounded); unlike particles (F11b) and images beyond shell 3 (F7) are known findings; invariance under re-description is covered by the lattice-sum and origin-shift oracles.',
         'level_note': 'Trusted: Lean kernel + 3 axioms; score model tied by bit-exact state/optc families; constants (3 shells, weight 1/2, normalisation) regenerated by the translator and pinned.',
         'technique': 'Lean 4 proof over R (finite lattice sums) + source-to-Lean translation of the function bodies with tie theorems + translator-pinned constants + bit-exact differential correspondence + independent lattice-sum oracle',
-        'theorems': ['Proofs.C03', 'Proofs.TieLJ', 'Proofs.TieLJShape', 'Proofs.TiePotential', 'Proofs.TieImages', 'Proofs.TieSite'],
+        'theorems': ['Proofs.C03', 'Proofs.TieLJ', 'Proofs.TieLJShape', 'Proofs.TiePotential', 'Proofs.TieImages', 'Proofs.TieSite', 'Proofs.SrcC03'],
         'families': [('state_lj', 2500, 40000), ('pair_lj', 1500, 20000), ('optc_lj', 150, 3000)],
         'search': (15, 400),
         'rule': 'state: LJ circle and trimers x 7 groups x cells incl. flat/skewed; search: independent closed-form lattice sum (code convention and each-pair-once convention, exhaustive shells for cut potentials) against score(), and origin shifts by symmetry-equivalent half lattice vectors (tolerance for the uncut potential = truncation error measured by the oracle)',
@@ -211,7 +211,7 @@ PROPS = {
         'level_text': 'Proof over R. Discs complete: test <=> the open discs share a point; symmetric; invariant under common rigid motions/reflections. Segments (after the tolerance fix): test <=> not near-parallel (|cross| <= 1e-12 |a||b|) and the 1e-12-extended segments share a point; yes implies points of the true segments within 1e-12(|a|+|b|); complete for non-near-parallel segments sharing a point; symmetric; invariant under orthogonal maps. Polygons: test <=> some such edge pair; coincident copies detected. Convex polygons: for closed strictly convex outlines of either orientation (which every placement of Shape.polygon n is: polygon_convexCW, ConvexOutline.transform) a common strictly interior point, neither outline nested strictly inside the other, forces two edges to share a point (convex_overlap_edges) and hence a positive test when meeting edges are not near-parallel (convex_overlap_detected_oriented). Partial: the angle hypothesis (crossings above the 1e-12 relative tolerance) and not-nestedness of congruent copies stay explicit hypotheses.',
         'level_note': 'Trusted: Lean kernel + 3 axioms; pair predicates tied by the bit-exact pair family; tolerance constant regenerated by the translator and pinned.',
         'technique': 'Lean 4 proof (planar geometry over R, convex outlines) + source-to-Lean translation of the pair predicates with tie theorems + bit-exact differential correspondence + separating-axis oracle',
-        'theorems': ['Proofs.C12', 'Proofs.C12Convex', 'Proofs.TieDisc', 'Proofs.TieLine', 'Proofs.TieHardShape', 'Proofs.C12Orient', 'Proofs.C12Polygon'],
+        'theorems': ['Proofs.C12', 'Proofs.C12Convex', 'Proofs.TieDisc', 'Proofs.TieLine', 'Proofs.TieHardShape', 'Proofs.C12Orient', 'Proofs.C12Polygon', 'Proofs.C12Placed', 'Proofs.SrcC12'],
         'families': [('pair_hard', 4000, 80000), ('mat', 1000, 20000)],
         'search': (12, 300),
         'rule': 'pair: line/atom/shape intersects on placements around contact distance, transforms; search: separating-axis (convex polygons) and disc-distance oracle with 1e-9 tolerance, argument swap, common rigid motion/reflection, aligned special configurations (parallel edges, shared vertices, coincident copies, displacement along an edge direction)',
@@ -222,7 +222,7 @@ PROPS = {
         'level_text': 'Proof over R: uncut energy = 4 eps ((s^2/r^2)^6 - (s^2/r^2)^3) = 4 eps((s/r)^12-(s/r)^6); cut: shifted inside, exactly 0 at and beyond the cutoff; depends on the squared distance only; invariant under common rigid motions; >= -eps with equality iff (s^2/r^2)^3 = 1/2; molecule energy = sum over particle pairs; trimer constants sigma = 2 radius, cutoff 7/2 (generated). Partial: symmetry proved for like particles only; for unlike particles it is FALSE of the code (kernel-decided witness over Q) - known finding F11.',
         'level_note': 'Trusted: Lean kernel + 3 axioms; LJ2/LJShape2 energy tied by the bit-exact pair family.',
         'technique': 'Lean 4 proof over R + kernel-decided counterexample over Q + source-to-Lean translation of the function bodies with tie theorems + bit-exact differential correspondence',
-        'theorems': ['Proofs.C13', 'Proofs.TieLJ', 'Proofs.TieLJShape'],
+        'theorems': ['Proofs.C13', 'Proofs.TieLJ', 'Proofs.TieLJShape', 'Proofs.SrcC13'],
         'families': [('pair_lj', 4000, 80000)],
         'search': (10, 240),
         'rule': 'pair: lj2 energies over 3.5 orders of magnitude in r, sigma, epsilon, cut and uncut, molecule energies under random placements; search: closed-form oracle (powf), zero beyond cutoff, minimum, rigid-motion invariance, symmetry (like and unlike particles separately), molecule = sum over pairs',
@@ -255,7 +255,7 @@ PROPS = {
         'level_text': 'Proof over R of every deterministic clause (better always accepted, undefined never, equal accepted at every temperature, worse never at kT <= 0, worse by d at kT > 0 accepted iff threshold < exp(-d/kT)), of the probability clause as a Lebesgue-measure statement (volume of accepting thresholds in [0,1) equals exp(-d/kT)), carrier-generic NaN clause, and that each step applies exactly this rule with its own draw, the current score and temperature. The threshold draw is exact: gen::<f64>() = (v >> 11)/2^53 and exactly 2^11*ceil(p*2^53) of the 2^64 raw outputs pass u < p, so the acceptance probability is within 2^-53 above exp(-d/kT) for a uniform raw output (C07Draw; closed form tied to the doubles by the rng unitq requests). Partial: uniformity of the raw output of Pcg64Mcg is trusted. energy_surface / test_acceptance / accept_score are regenerated from the source and proved equal to the model (TieAccept).',
         'level_note': 'Trusted: uniformity of rand\'s Standard f64 and Pcg64Mcg (the stream itself is pinned bit-for-bit by the rng family); Lean kernel + 3 axioms; Mathlib measure theory.',
         'technique': 'Lean 4 proof (real analysis, Lebesgue measure, exact counting of raw outputs) + source-to-Lean translation of the acceptance rule with tie theorems + bit-exact differential correspondence incl. PRNG port',
-        'theorems': ['Proofs.C07', 'Proofs.C07Draw', 'Proofs.TieAccept', 'Proofs.TieLoopTail'],
+        'theorems': ['Proofs.C07', 'Proofs.C07Draw', 'Proofs.TieAccept', 'Proofs.TieLoopTail', 'Proofs.SrcC07'],
         'families': [('rng', 400, 10000), ('opt', 1500, 30000)],
         'search': (10, 240),
         'rule': 'rng: raw PCG stream for 64 seeds and the three sampling functions; opt/optc as for C05; search: deterministic Metropolis clauses on every step whose outcome is visible in the recorded vectors, thresholds re-drawn with the real rand crate',
@@ -266,7 +266,7 @@ PROPS = {
         'level_text': 'Proof over R: clamp lands in range; run invariant — if every handled parameter starts inside its range then every proposal and the result keep every handled parameter inside its range and every unhandled parameter unchanged, for any history; generated degrees of freedom and bounds (regenerated from cell.rs/site.rs each run) equal the declared ones (length [0.01,cur], ratio [0.1,cur], angle [pi/6,pi/2] only for oblique cells, x,y in [-1/2,1/2], orientation [0,2pi]); handle addresses distinct; angle unhandled unless Monoclinic; chained stages re-derive contained ranges; no degenerate cell inside the box; every table with any hard shape whose components lie within its positive enclosing radius starts from a state that passes the overlap check with a positive finite score (kernel-decided separation of the initial copies per table, transported to R), and every LJ initial state reports a score. Partial: finiteness of the returned score along a run rests on the score functions (C02/C03) and the NaN clause of C07.',
         'level_note': 'Trusted: translator pvtx.py for bounds (validated by cell dof / site basis / state basis requests observed behaviourally on the crate); Lean kernel + 3 axioms.',
         'technique': 'Lean 4 invariant proof + kernel-decided declared-constants obligations over translator output + source-to-Lean translation of the function bodies with tie theorems + differential correspondence',
-        'theorems': ['Proofs.C08', 'Proofs.C08Init', 'Proofs.TieBasis', 'Proofs.DeclBasis'],
+        'theorems': ['Proofs.C08', 'Proofs.C08Init', 'Proofs.TieBasis', 'Proofs.DeclBasis', 'Proofs.TieAccept'],
         'families': [('state', 1500, 30000), ('cell', 1500, 20000), ('site', 1000, 20000), ('opt', 1000, 20000)],
         'search': (12, 300),
         'rule': 'state: 7 groups x shapes x potentials, ops score/params/basis/label/relpos/cartpos incl. from_group initial states; search: range/family monitor on every recorded proposal, chains of 1..4 stages on real states, from_group validity for every group x shape family',
@@ -277,7 +277,7 @@ PROPS = {
         'level_text': 'Full proof over the reals: the Cartesian map is x*A + y*B with A=(a,0), B=(b cos t, b sin t); periodic_images of a placement within k shells is exactly the list of translates by n*A+m*B over the index set {|n|,|m|<=k} (minus (0,0) unless asked), each once, in order, orientation unchanged; area = |A x B|; corners/centre. The model functions are the same Lean terms that run at Float against the crate.',
         'level_note': 'Trusted: Lean kernel + 3 standard axioms; model of src/cell.rs tied by the bit-exact cell/mat request families (cells injected through the crate Deserialize); f64 rounding outside the theorems (statements are exact over R; the search evaluates them on the real outputs to 1e-12).',
         'technique': 'Lean 4 proof over R of a scalar-polymorphic executable model + source-to-Lean translation of the function bodies with tie theorems + bit-exact differential correspondence',
-        'theorems': ['Proofs.C14', 'Proofs.TieCell', 'Proofs.TieImages'],
+        'theorems': ['Proofs.C14', 'Proofs.TieCell', 'Proofs.TieImages', 'Proofs.SrcC14'],
         'families': [('cell', 4000, 80000), ('mat', 2000, 40000)],
         'search': (6, 90),
         'rule': ('cell: cells over the optimiser box (40% on faces), 4 families, ops cart/area/ab/center/corners/iso/dof/fromfamily/images with shells -1..6; '
@@ -289,7 +289,7 @@ PROPS = {
         'level_text': 'Full proof over the reals: the wrap maps every coordinate into [-1/2,1/2), changes it by an integer, is 1-periodic and the identity on the cell; a site yields exactly one placement per operation with linear part L_k*Rot(theta), position in the canonical cell and congruent to g_k(x,y) mod Z^2; lattice-shifted coordinates / orientations +2*pi*j give the same placements (integrality of every table operation decided in the kernel on the regenerated tables). Wrap constants (period 1, offset -1/2) are regenerated from the source and pinned by a decidable obligation.',
         'level_note': 'Trusted: Lean kernel + 3 standard axioms; model of site.rs/transform.rs tied by bit-exact wrap/site/mat families incl. an exhaustive edge set (+-1/2, +-1/2 +- ulp, +-0, tiny, huge) for the double fmod; f64 rounding outside the theorems.',
         'technique': 'Lean 4 proof over R (floor/fract arithmetic) + kernel decision on generated tables + source-to-Lean translation of the function bodies with tie theorems + bit-exact differential correspondence',
-        'theorems': ['Proofs.C15', 'Proofs.TieWrap', 'Proofs.TieSite'],
+        'theorems': ['Proofs.C15', 'Proofs.TieWrap', 'Proofs.TieSite', 'Proofs.SrcC15'],
         'families': [('wrap', 3000, 60000), ('site', 4000, 80000), ('mat', 1000, 20000)],
         'search': (6, 90),
         'rule': ('wrap: exhaustive edge set then random coordinates; site: all 7 groups, coordinates on/near the bounds 30%, lattice-shifted coordinates; '
@@ -351,7 +351,7 @@ PROPS = {
         'level_text': 'Proof: termination is structural; build never yields inner_steps = 0; without convergence exactly (steps/inner)*inner proposals (<= steps, > steps - inner); any run evaluates whole loops and at most steps; the run with a threshold is a prefix of the run without; an early exit implies the last six loops each gained less than the threshold; from a valid input no panic site of optimise_state is reachable. Partial: the CLI clause (exit status / files) is checked by the cli correspondence, argument parsing (structopt/clap) is trusted.',
         'level_note': 'Trusted: panic sites of optimise_state are enumerated by hand in the model (PanicSite) and tied by the opt family comparing panic/ok outcomes incl. panic site names; Lean kernel + 3 axioms.',
         'technique': 'Lean 4 structural induction over the optimiser loops + source-to-Lean translation of the function bodies with tie theorems + differential correspondence of outcomes',
-        'theorems': ['Proofs.C20', 'Proofs.TieBuild', 'Proofs.TieLoopTail'],
+        'theorems': ['Proofs.C20', 'Proofs.TieBuild', 'Proofs.TieLoopTail', 'Proofs.TieBasis'],
         'families': [('opt', 2000, 40000)],
         'search': (10, 240),
         'rule': 'opt as for C05 over steps/inner in {0,1,2,3,7,...} incl. non-multiples and inner > steps; search: work-bound and six-loop monitors, prefix oracle (same run with and without threshold), catch_unwind around every run',
